@@ -1616,13 +1616,23 @@ func (e *ForExpr) Value(ctx *hcl.EvalContext) (cty.Value, hcl.Diagnostics) {
 			} else {
 				k := key.AsString()
 				if _, exists := vals[k]; exists {
+					detail := fmt.Sprintf(
+						"Two different items produced the key %q in this 'for' expression. If duplicates are expected, use the ellipsis (...) after the value expression to enable grouping by key.",
+						k,
+					)
+					for _, ms := range marks {
+						if len(ms) != 0 {
+							// The key may derive from a marked value (the
+							// collection, the condition or the key expression
+							// itself), so it must not be echoed.
+							detail = "Two different items produced the same key in this 'for' expression. If duplicates are expected, use the ellipsis (...) after the value expression to enable grouping by key."
+							break
+						}
+					}
 					diags = append(diags, &hcl.Diagnostic{
-						Severity: hcl.DiagError,
-						Summary:  "Duplicate object key",
-						Detail: fmt.Sprintf(
-							"Two different items produced the key %q in this 'for' expression. If duplicates are expected, use the ellipsis (...) after the value expression to enable grouping by key.",
-							k,
-						),
+						Severity:    hcl.DiagError,
+						Summary:     "Duplicate object key",
+						Detail:      detail,
 						Subject:     e.KeyExpr.Range().Ptr(),
 						Context:     &e.SrcRange,
 						Expression:  e.KeyExpr,
